@@ -309,8 +309,23 @@ def run_mixed(ctx):
     codes = {lab: r[0] for lab, r in zip(labels, res)}
     ctx.coverage['mixed_parse_error_and_fail_exit_codes'] = codes
     if len(set(codes.values())) != 1:
+        # the recorded finding is exactly this table; any other table is a new violation
+        recorded = {}
+        for a, b in (('f.guard', 'b.guard'), ('b.guard', 'f.guard')):
+            recorded['plain(%s,%s)' % (a, b)] = 5 if b == 'b.guard' else 19           # the last non-zero code
+            for m in ('s-json', 's-yaml', 's-sarif'):
+                recorded['%s(%s,%s)' % (m, a, b)] = 19
+            recorded['s-junit(%s,%s)' % (a, b)] = 5
+        cls = 'mixed-parse-error-and-fail' if codes == recorded else 'mixed-parse-error-and-fail-other-codes'
         ctx.failing('a parse error together with a FAIL: the exit code depends on the output mode / argument order: %s' % codes,
-                    {'class': 'mixed-parse-error-and-fail', 'codes': codes, 'rules': ['rule f { n == 12345 }', 'rule b { n == '], 'data': '{"n": 1}'}, found=True)
+                    {'class': cls, 'codes': codes, 'rules': ['rule f { n == 12345 }', 'rule b { n == '], 'data': '{"n": 1}'}, found=True)
+    # whatever the exit code, the failing rule of the file that parses is reported by every structured run, in both orders
+    for lab, r in zip(labels, res):
+        if lab.startswith(('s-json', 's-yaml')):
+            text = r[1].decode('utf-8', 'replace')
+            if not re.search(r'\bf\b', text) or 'not_compliant' not in text:
+                ctx.failing('%s: the failing rule f of the rules file that parses is missing from the report' % lab,
+                            {'class': 'format-independence', 'mode': lab, 'stdout': text[:500], 'rules': ['rule f { n == 12345 }', 'rule b { n == '], 'data': '{"n": 1}'}, found=True)
 
 
 def run_multi(ctx):
@@ -321,9 +336,10 @@ def run_multi(ctx):
     data = '{"x": 1, "y": 2}'
     k = 0
     for n in (2, 3):
-        for combo in itertools.product('PFS', repeat=n):
+        for combo in itertools.product('PFSE' if n == 2 else 'PFE', repeat=n):
             d = os.path.join(ctx.wd, 'multi%d' % k); k += 1
-            texts = ['rule f%d {\n  %s\n}\n' % (i, BODY[c]) for i, c in enumerate(combo)]
+            # E: a rules file that holds only a comment (no rule at all)
+            texts = [('# nothing to check here\n' if c == 'E' else 'rule f%d {\n  %s\n}\n' % (i, BODY[c])) for i, c in enumerate(combo)]
             same = k % 2 == 0            # every other scenario: one base name in different directories
             rnames = [('pol/d%d/r.guard' % i) if same else ('r%d.guard' % i) for i in range(n)]
             files = {nme: t for nme, t in zip(rnames, texts)}
